@@ -161,7 +161,79 @@ def rule_P2(ck):
                             "an unencodable character escapes as an internal error", construct=norm_text(c))
 
 
+def foreign_samples(enc):
+    """characters OUTSIDE the table that a well-meant normalisation would turn into characters inside it, plus plain foreigners.
+    Computed here from the folded table with the checker's own unicodedata (nothing of the repository runs)."""
+    import unicodedata
+    inside = set(enc)
+    out = {}
+    for cp in list(range(0x80, 0x3000)) + list(range(0xFF00, 0xFFF0)):
+        ch = chr(cp)
+        if ch in inside:
+            continue
+        for name, f in (("NFC", lambda c: unicodedata.normalize("NFC", c)), ("NFKC", lambda c: unicodedata.normalize("NFKC", c)), ("NFD", lambda c: unicodedata.normalize("NFD", c)),
+                        ("NFKD", lambda c: unicodedata.normalize("NFKD", c)), ("lower", str.lower), ("upper", str.upper), ("casefold", str.casefold)):
+            t = f(ch)
+            if t != ch and t and all(c in inside for c in t) and name not in out:
+                out[name] = ch
+    # combining sequences that compose into a table character
+    for base in inside:
+        for comb in ("\u0306", "\u0308"):
+            c = unicodedata.normalize("NFC", base + comb)
+            if len(c) == 1 and c in inside and "NFC-seq" not in out:
+                out["NFC-seq"] = base + comb
+    out["latin-1"] = "\u00e9"
+    out["astral"] = "\U0001F600"
+    return out
+
+
+def rule_flow(ck):
+    """The characters of a string or character literal reach the codec as written: only then does 'every character outside the
+    table is refused' (C14.fn) mean what the property says. Each literal parser is run (abstractly, real combinators) on
+    literals holding a foreign character; the token must carry exactly the source characters."""
+    from .c05 import run_parser
+    repo = ck.repo
+    _I, (dec, enc) = fold_tables(repo)
+    if not isinstance(enc, dict):
+        raise Unknown("ENCODING_TABLE does not fold to a dict")
+    samples = foreign_samples(enc)
+    if len(samples) < 6:
+        raise Unknown(f"only {len(samples)} foreign sample classes could be derived from the table")
+    I = eager_interp(repo)
+    inside = "\u0416"   # a Cyrillic letter of the table: must pass through as well
+    if inside not in enc:
+        raise Unknown("U+0416 is not in the folded table")
+    for kind, ch in sorted(samples.items()) + [("inside", inside)]:
+        for pname, text, field, want in (("quoted_string", f'"a{ch}b"', "string", f"a{ch}b"), ("quoted_string", f"/{ch}/", "string", ch),
+                                         ("single_quoted_literal", f"'{ch[0]}", "string", ch[0]), ("double_quoted_literal", f'"{ch[0]}z', "string", ch[0] + "z")):
+            if not repo.has_func(f"parser::{pname}"):
+                raise Unknown(f"anchor vanished: parser::{pname}")
+            r, pos, errs, raised = run_parser(I, pname, text)
+            got = r.fields.get(field) if isinstance(r, Rec) else None
+            ck.instance(("literal", pname, kind, text), {"parser": pname, "class": kind, "source": text.encode("unicode_escape").decode(), "token text": None if got is None else got.encode("unicode_escape").decode()}, fn=f"parser::{pname}")
+            if raised or got != want:
+                ck.violation(f"parser::{pname}", f"the literal {text.encode('unicode_escape').decode()} is parsed into text {None if got is None else got.encode('unicode_escape').decode()!r} "
+                                                 f"(raised: {raised}), not into the characters written ({kind}): a character outside the BK table is rewritten into one inside it and is "
+                                                 "assembled silently instead of being refused", construct=f"{pname} rewrites characters")
+    # the token hands the same text on
+    for cls in ("QuotedString",):
+        fn = repo.func(f"types::{cls}.resolve")
+        rets = [n for n in ast.walk(fn) if isinstance(n, ast.Return)]
+        ck.instance(("resolve", cls), {"returns": [norm_text(r.value) for r in rets]}, fn=f"types::{cls}.resolve")
+        if len(rets) != 1 or norm_text(rets[0].value) != "self.string":
+            # decide by abstract execution instead of by shape
+            V = sym.var("TEXT", "str")
+
+            def thunk():
+                tok = I.instantiate(I.module_get("types", cls), [None, None, '"', V], {})
+                return I.call_method(tok, "resolve", [{}])
+            ps = I.explore(thunk)
+            if len(ps) != 1 or ps[0].kind != "return" or ps[0].value != V:
+                ck.violation(f"types::{cls}.resolve", f"{cls}.resolve returns {ps[0].value!r} for the text TEXT: the literal's characters are transformed on the way to the codec", construct=f"{cls}.resolve transforms")
+
+
 def run(ck):
+    ck.run_rule("C14.flow", "string and character literals carry the characters written (no normalisation or case mapping before the codec)", 30, rule_flow)
     ck.run_rule("C14.table", "256-entry table: bijection, ASCII, KOI8-R, no foreign keys (exhaustive)", 400, rule_table)
     ck.run_rule("C14.fn", "encode/decode index the tables; error position; registration", 30, rule_functions)
     ck.run_rule("P2", "every .encode(charset) on program text is guarded by a reporting handler", 3, rule_P2)
